@@ -14,6 +14,7 @@ func vSpec(nameLens []int, keyLens []int, maxSuites int) ConfigSpec {
 		s.CipherSuites = append(s.CipherSuites, CipherSuite{KDF: vUint16(), AEAD: vUint16()})
 	}
 	s.PublicName = vBytes(nameLens[vInt(0, len(nameLens)-1)])
+	s.MaximumNameLength = vByte() // an input the encoder must ignore: the value is derived from the name
 	return s
 }
 
@@ -110,6 +111,17 @@ func verifC11List() {
 		_, err := ParseConfigList(list[:k])
 		vAssert(err != nil, "truncated list rejected")
 	}
+	// the last config cut short under an outer length that is consistent with the cut
+	if n >= 1 && len(ref) > 0 {
+		j := vInt(1, len(cfgs[n-1]))
+		cutRef := ref[:len(ref)-j]
+		_, err := ParseConfigList(append([]byte{byte(len(cutRef) >> 8), byte(len(cutRef))}, cutRef...))
+		if n == 1 && j == len(cfgs[0]) {
+			vAssert(err == nil, "an empty list parses")
+		} else if j < len(cfgs[n-1]) {
+			vAssert(err != nil, "a list whose last config is truncated is rejected as a whole")
+		}
+	}
 	vReach("list")
 }
 
@@ -125,6 +137,11 @@ func verifC11NewConfig() {
 	vAssert(vBytesEq(s.PublicName, name), "public name")
 	vAssert(vBytesEq(s.PublicKey, key.PublicKey().Bytes()), "public key is the generated key's")
 	vAssert(len(s.CipherSuites) == 3, "three suites")
+	if len(s.CipherSuites) == 3 {
+		vAssert(s.CipherSuites[0] == CipherSuite{1, 3} && s.CipherSuites[1] == CipherSuite{1, 2} && s.CipherSuites[2] == CipherSuite{1, 1},
+			"the documented suites: HKDF-SHA256 with ChaCha20Poly1305, AES-256-GCM, AES-128-GCM")
+	}
+	vAssert(len(s.PublicKey) == 32, "an X25519 public key")
 	vAssert(vBytesEq(cfg, vRefConfig(s)), "layout")
 	vReach("newconfig")
 }
@@ -138,10 +155,28 @@ func verifC11ParseRaw() {
 	}
 	b := vBytes(vInt(0, n))
 	s1, err1 := Config(b).Spec()
-	_, _ = ParseConfigList(b)
+	if specs, lerr := ParseConfigList(b); lerr == nil {
+		// an accepted list tiles its declared length exactly with well-framed configs
+		declared := int(b[0])<<8 | int(b[1])
+		vAssert(len(b) >= 2+declared, "list length within the input")
+		rest := b[2 : 2+declared]
+		cnt := 0
+		for len(rest) > 0 && cnt <= len(specs) {
+			ok, _, _, _ := vRefConfigFrame(rest)
+			vAssert(ok && len(rest) >= 4, "every config of an accepted list is well framed")
+			if !ok || len(rest) < 4 {
+				break
+			}
+			rest = rest[4+(int(rest[2])<<8|int(rest[3])):]
+			cnt++
+		}
+		vAssert(cnt == len(specs), "an accepted list yields exactly the configs it holds")
+		vReach("raw-list")
+	}
 	vReach("raw")
 	if err1 == nil {
 		// every field lies inside the vector that declares it (reference walk over the framing)
+		vAssert(b[0] == 0xfe && b[1] == 0x0d, "only version 0xfe0d configs are accepted")
 		ok, pk, suites, name := vRefConfigFrame(b)
 		vAssert(ok, "accepted config is well framed: every vector fits in its parent, suites vector is whole")
 		vAssert(vBytesEq(s1.PublicKey, pk) && vBytesEq(s1.PublicName, name) && len(s1.CipherSuites)*4 == len(suites), "fields are exactly the declared vectors")
@@ -210,6 +245,11 @@ func verifC11TLSClient() {
 		CipherSuites: []CipherSuite{{1, 3}, {1, 2}, {1, 1}}, PublicName: []byte(name)}
 	cfg, err := spec.Bytes()
 	vAssert(err == nil, "Bytes")
+	if vBool() {
+		// the config as NewConfig itself produces it
+		_, cfg, err = NewConfig(spec.ID, spec.PublicName)
+		vAssert(err == nil, "NewConfig")
+	}
 	n := vInt(1, 2)
 	cfgs := []Config{cfg}
 	if n == 2 {
@@ -253,6 +293,12 @@ func verifC11TLSServer() {
 		CipherSuites: []CipherSuite{{1, 3}, {1, 2}, {1, 1}}, PublicName: []byte(name)}
 	cfg, err := spec.Bytes()
 	vAssert(err == nil, "Bytes")
+	if vBool() {
+		// the config and key as NewConfig itself produces them
+		key, c2, err := NewConfig(id, []byte(name))
+		vAssert(err == nil, "NewConfig")
+		cfg, priv = c2, key.Bytes()
+	}
 	out := vTLSServerTry(cfg, priv, id)
 	vAssert(out != "badconfig" && out != "badkey", "crypto/tls's server accepts the config and key as EncryptedClientHelloKeys")
 	vReach("tls-server")
